@@ -534,6 +534,46 @@ def p11(rep):
                           "number, wrong file", detail={"cfg_path": p[:10]})
 
 
+def p12(rep):
+    """A run of the global line table stands for three things: a file, a first global line, and the offset between global and
+    local line numbers (sposLine decodes `flno0 + (glno - glno0)`).  sposNew is handed all three for the line it makes a
+    position for, and starts a new run when the last one does not cover the line.  The test must therefore look at the local
+    line as well: a line of the *same* file that does not continue the run's offset -- the includer's next line after an
+    included file that named the includer in a `#line` -- otherwise decodes to a wrong line number.  The condition under which
+    sposNew calls sposGrowGloLineTbl mentions its local-line parameter and the run's flno."""
+    f = common.extract("srcpos.c", trees=["sposNew"])
+    fn = f.func("sposNew")
+    params = [p_["n"] for p_ in fn.get("params", [])]
+    if len(params) < 3:
+        raise AnalysisBroken("sposNew no longer takes (file, local line, global line, column)")
+    flno = params[1]
+    conds = []
+    for x in walk(fn["body"]):
+        if x["k"] == "IfStmt" and calls(x["c"][1], "sposGrowGloLineTbl"):
+            conds.append(x)
+    # the innermost condition is the test itself
+    conds = [x for x in conds if not any(y is not x and any(z is y for z in walk(x["c"][1])) for y in conds)]
+    if len(conds) != 1:
+        raise AnalysisBroken("sposNew: expected one guarded call of sposGrowGloLineTbl, found %d" % len(conds))
+    cond = conds[0]["c"][0]
+    # locals that hold the run's flno
+    holders = set()
+    for x in walk(fn["body"]):
+        if x["k"] == "BinaryOperator" and x["op"] == "=" and (strip(x["c"][0]) or {}).get("k") == "DeclRefExpr":
+            if any(y["k"] == "MemberExpr" and y["n"] == "flno" for y in walk(x["c"][1])):
+                holders.add(strip(x["c"][0])["n"])
+    uses_param = any(y["k"] == "DeclRefExpr" and y["n"] == flno for y in walk(cond))
+    uses_run = any((y["k"] == "MemberExpr" and y["n"] == "flno") or (y["k"] == "DeclRefExpr" and y["n"] in holders) for y in walk(cond))
+    if uses_param and uses_run:
+        rep.ok("P12", "new-run-when-offset-breaks")
+    else:
+        rep.violation("P12", "new-run-when-offset-breaks", "srcpos.c:%d (sposNew)" % conds[0]["l"],
+                      "the test for starting a new run of the line table compares the file and the global line only: a line of "
+                      "the same file whose local number does not continue the run (after an included file that ends in "
+                      "`#line N \"<includer>\"`) is decoded with the old offset -- right file, wrong line number in every later "
+                      "diagnostic of the includer")
+
+
 def p10(rep):
     """sposNew starts a new line-table segment -- which is what makes a message name the file it is in -- when the file name of
     the next line differs from the previous entry's (fnameEqual -> osFnameDirEqual for the directory parts).  osFnameDirEqual
@@ -614,5 +654,6 @@ def run(tier, only=None):
     p9(rep)
     p10(rep)
     p11(rep)
+    p12(rep)
     rep.analysed_count("translation units", 3)
     return rep
